@@ -254,6 +254,50 @@ def check(run, prog, tier):
     rule_C(run, prog)
     rule_D(run, prog, routines + [f for n, f in svc.methods.items() if "short_exp" in n])
     rule_E(run, prog, routines + [f for n, f in svc.methods.items() if "short_exp" in n])
+    run.rule("C02-T", "'agree with the Lindblad generator' of the operators that were submitted: the array in which the system-bath "
+                      "interaction collects its operators can hold every one of them - it is allocated with a fixed floating element "
+                      "type (or the default), never with an element type taken from one of the inputs (an integer first operator "
+                      "would truncate all later ones on assignment)", minimum=1)
+    rule_T(run, prog)
+
+
+def rule_T(run, prog):
+    """All methods of SystemBathInteraction: `self.X = numpy.zeros/empty/ones(..., dtype=E)` where self.X is then filled by
+    subscripted stores: E is not a local of the method (a value computed from the arguments) and is not an attribute of one of
+    the inputs (`.dtype`)."""
+    rid = "C02-T"
+    cls = prog.cls("quantarhei.qm.liouvillespace.systembathinteraction.SystemBathInteraction")
+    n = 0
+    for name, f in sorted(cls.methods.items()):
+        if not isinstance(f.node, ast.FunctionDef):
+            continue
+        locals_ = {t_.id for x in walk_no_nested(f.node) if isinstance(x, ast.Assign) for t_ in x.targets if isinstance(t_, ast.Name)}
+        locals_ |= {a_.arg for a_ in f.node.args.args}
+        filled = {norm(t_.value) for x in walk_no_nested(f.node) if isinstance(x, (ast.Assign, ast.AugAssign))
+                  for t_ in (x.targets if isinstance(x, ast.Assign) else [x.target]) if isinstance(t_, ast.Subscript)}
+        for x in walk_no_nested(f.node):
+            if not (isinstance(x, ast.Assign) and isinstance(x.value, ast.Call) and call_name(x.value) in ("zeros", "empty", "ones", "full")):
+                continue
+            tg = [norm(t_) for t_ in x.targets if norm(t_).startswith("self.")]
+            if not tg or tg[0] not in filled:
+                continue
+            n += 1
+            prog.consulted.add(f.relpath)
+            dt = [k.value for k in x.value.keywords if k.arg == "dtype"]
+            bad = None
+            if dt:
+                names = {y.id for y in ast.walk(dt[0]) if isinstance(y, ast.Name)}
+                if names & locals_:
+                    bad = "`%s` is computed in the method from its inputs" % norm(dt[0])
+                elif any(isinstance(y, ast.Attribute) and y.attr == "dtype" for y in ast.walk(dt[0])):
+                    bad = "`%s` is the element type of one input" % norm(dt[0])
+            run.obligation(rid, f.short, bad is None, key="element-type:" + tg[0],
+                           message="%s allocates %s with an element type that depends on what was submitted (%s): operators "
+                                   "assigned into it later are converted to that type (integers truncate), and the generator is "
+                                   "that of other operators than the submitted ones" % (f.short, tg[0], bad),
+                           loc=f.loc(x), sample={"method": f.short, "array": tg[0], "dtype": norm(dt[0]) if dt else "default"})
+    if n < 1:
+        raise AnalysisError("C02-T: SystemBathInteraction no longer allocates an array that it fills operator by operator")
 
 
 # ----------------------------------------------------------------------
